@@ -833,20 +833,41 @@ func c19SuccessOnlyAfterSuccess(c *Ctx, rule string) {
 			if !ok || sd.X.Type().String() != "error" {
 				return
 			}
-			st := sendSite{in: sd, inFunc: f, roots: rootsOf(sd.X)}
-			for _, ft := range flow.FactsAt(sd.Block()) {
-				bo, isB := ft.Cond.(*ssa.BinOp)
-				if !isB || bo.X.Type().String() != "error" {
-					continue
-				}
-				if !provablyNil(bo.Y, sd.Block()) && !provablyNil(bo.X, sd.Block()) {
-					continue
-				}
-				if (bo.Op.String() == "==" && ft.True) || (bo.Op.String() == "!=" && !ft.True) {
-					st.noErr = true
-				}
+			// a value chosen before the send (`res := f(); if res == nil { res = happy }; errs <- res`) is sent
+			// under the facts of the edge on which it was chosen
+			type alt struct {
+				v     ssa.Value
+				facts []flow.Fact
 			}
-			sends = append(sends, st)
+			var alts []alt
+			var expandPhi func(v ssa.Value, facts []flow.Fact, depth int)
+			expandPhi = func(v ssa.Value, facts []flow.Fact, depth int) {
+				if p, isPhi := v.(*ssa.Phi); isPhi && depth < 4 && len(p.Edges) == len(p.Block().Preds) {
+					for i, e := range p.Edges {
+						ef := append(append([]flow.Fact{}, facts...), flow.EdgeFacts(p.Block().Preds[i], p.Block())...)
+						expandPhi(e, ef, depth+1)
+					}
+					return
+				}
+				alts = append(alts, alt{v, facts})
+			}
+			expandPhi(sd.X, flow.FactsAt(sd.Block()), 0)
+			for _, a := range alts {
+				st := sendSite{in: sd, inFunc: f, roots: rootsOf(a.v)}
+				for _, ft := range a.facts {
+					bo, isB := ft.Cond.(*ssa.BinOp)
+					if !isB || bo.X.Type().String() != "error" {
+						continue
+					}
+					if !provablyNil(bo.Y, sd.Block()) && !provablyNil(bo.X, sd.Block()) {
+						continue
+					}
+					if (bo.Op.String() == "==" && ft.True) || (bo.Op.String() == "!=" && !ft.True) {
+						st.noErr = true
+					}
+				}
+				sends = append(sends, st)
+			}
 		})
 	}
 	success := map[interface{}]bool{}
